@@ -17,12 +17,14 @@ def rowsScript : Nat → Shape Rat → List String → Option String
   | fuel+1, S, "I" :: dir :: u :: r :: chk :: rest => do
       let dir ← dir.toNat?; let u ← parseRat u; let r ← r.toNat?
       if dir ≥ 3 || !inDomS S dir u then return "ERR"
+      if r != 0 && spanOutS S dir u then return "OUT"
       match insertKnotVolRows S dir u r tolMult (chk == "1") with
       | some T => rowsScript fuel T rest
       | none => return "ERR"
   | fuel+1, S, "R" :: dir :: u :: num :: chk :: rest => do
       let dir ← dir.toNat?; let u ← parseRat u; let num ← num.toNat?
       if dir ≥ 3 || !inDomS S dir u then return "ERR"
+      if num != 0 && spanOutS S dir u then return "OUT"
       match removeKnotVolRows S dir u num tolMult (tolRemove * tolRemove) (chk == "1") with
       | some T => rowsScript fuel T rest
       | none => return "ERR"
@@ -42,7 +44,9 @@ def insSeqCoded : Shape Rat → List String → Option String
       let params ← parseOptList ps
       let nums ← parseNats ns
       if !callListsOk S params nums (chk == "1") then return "ERR"
-      if (List.range S.pdim).any (fun d => match params.getD d none with | some u => !inDomS S d u | none => false) then return "ERR"
+      -- a direction with `num = 0` is skipped by the code whatever its parameter is (I5)
+      if (List.range S.pdim).any (fun d => match params.getD d none with | some u => nums.getD d 0 != 0 && !inDomS S d u | none => false) then return "ERR"
+      if reqSpanOut S params nums || uncheckedOver S params nums (chk == "1") then return "OUT"
       let res := insertKnotCoded S params nums tolMult (chk == "1")
       if res.2 then insSeqCoded res.1 rest else return "ERR"
   | _, _ => none
@@ -50,10 +54,12 @@ def insSeqCoded : Shape Rat → List String → Option String
 def handleKnotRows (toks : List String) : Option String :=
   match toks with
   -- A5.1 AS CODED on rows (literal transcription `knotInsertionRowsA51`), same call and guard as `rowsins`
+  -- (incl. `a51DivByZero`: an EMPTY span argument can make an alpha denominator vanish - ZeroDivisionError in the helper)
   | ["rowsinsa51", p, us, rs, u, r, s, k] => do
       let p ← p.toNat?; let U ← parseList us; let R ← parsePts2 rs; let u ← parseRat u
       let r ← r.toNat?; let s ← s.toNat?; let k ← k.toNat?
-      if p = 0 || U.length != R.length + p + 1 || !isSortedB U || !rowsOk R || r + s > p || k < p || k ≥ R.length then return "ERR"
+      if p = 0 || U.length != R.length + p + 1 || !isSortedB U || !rowsOk R || r + s > p || k < p || k ≥ R.length
+          || a51DivByZero p (fn U) r s k then return "ERR"
       return showPts2 (knotInsertionRowsA51 p (fn U) R u r s k)
   -- operations.insert_knot with the helper's loops as coded (point branch per iso-curve / rows branch for volumes)
   | "insc" :: rest => do
@@ -75,7 +81,8 @@ def handleKnotRows (toks : List String) : Option String :=
   | ["rowsins", p, us, rs, u, r, s, k] => do
       let p ← p.toNat?; let U ← parseList us; let R ← parsePts2 rs; let u ← parseRat u
       let r ← r.toNat?; let s ← s.toNat?; let k ← k.toNat?
-      if p = 0 || U.length != R.length + p + 1 || !isSortedB U || !rowsOk R || r + s > p || k < p || k ≥ R.length then return "ERR"
+      if p = 0 || U.length != R.length + p + 1 || !isSortedB U || !rowsOk R || r + s > p || k < p || k ≥ R.length
+          || a51DivByZero p (fn U) r s k then return "ERR"
       return showPts2 (knotInsertionRows p (fn U) R u r s k)
   -- helpers.knot_removal(p, U, rows, u, num=num, s=s, span=k)
   | ["rowsrem", p, us, rs, u, num, s, k] => do
